@@ -72,7 +72,10 @@ impl Serializer for ValueSerializer {
     }
 
     fn serialize_u128(self, value: u128) -> Result<Value> {
-        self.serialize_i128(value as i128)
+        match i128::try_from(value) {
+            Ok(value) => self.serialize_i128(value),
+            Err(_) => Err(Error::ser("u128 value out of range for Value::Int")),
+        }
     }
 
     fn serialize_f32(self, value: f32) -> Result<Value> {
